@@ -173,7 +173,177 @@ let frag_bytes (bs : bytes) =
       (hex_of_bytes (frag_write [] h)) (s_of_n (frag_header_len h)) (frag_dec frag_from_slice (re @ rest))
       (frag_dec frag_read bs) (hex_of_bytes frag_keep_mask)
 
+(* ---- link/net types (extend-c08a) ---- *)
+let opt_n_str = function Some v -> s_of_n v | None -> "-"
+let rest_after (bs : bytes) (hl : n) : string =
+  string_of_int (List.length bs - int_of_n hl)
+
+(* MacsecHeader: canon = ptype(0..3),ether_type|-,es,scb,an,short_len,packet_nr,sci|- *)
+let mac_canon (h : macsecHeader) : string =
+  let (p, et) = match h.mac_ptype with
+    | MacUnmodified e -> (0, s_of_n e) | MacModified -> (1, "-") | MacEncrypted -> (2, "-")
+    | MacEncryptedUnmodified -> (3, "-") in
+  Printf.sprintf "%d,%s,%s,%s,%s,%s,%s,%s" p et (b01 h.mac_endstation_id) (b01 h.mac_scb) (s_of_n h.mac_an)
+    (s_of_n h.mac_short_len) (s_of_n h.mac_packet_nr) (opt_n_str h.mac_sci)
+let mac_dec_fs (bs : bytes) : string =
+  match mac_from_slice bs with
+  | Ok h -> mac_canon h ^ "/" ^ rest_after bs (mac_header_len h)
+  | Err _ -> "err"
+let mac_dec_rd (bs : bytes) : string =
+  match mac_read bs with
+  | Ok (h, rest) -> mac_canon h ^ "/" ^ ilen rest
+  | Err _ -> "err"
+let mac_spec (h : macsecHeader) : bytes =
+  macsec_layout h.mac_endstation_id (mac_sci_some h.mac_sci) h.mac_scb (mac_encrypted h.mac_ptype)
+    (mac_userdata_changed h.mac_ptype) h.mac_an h.mac_short_len h.mac_packet_nr h.mac_sci
+    (match h.mac_ptype with MacUnmodified e -> Some e | _ -> None)
+let mac_value args =
+  match args with
+  | [p; et; es; scb; an; sl; pn; sci; trail] ->
+    let ptype = match p with
+      | "0" -> MacUnmodified (n_of_s et) | "1" -> MacModified | "2" -> MacEncrypted
+      | _ -> MacEncryptedUnmodified in
+    let h = { mac_ptype = ptype; mac_endstation_id = (es = "1"); mac_scb = (scb = "1"); mac_an = n_of_s an;
+              mac_short_len = n_of_s sl; mac_packet_nr = n_of_s pn;
+              mac_sci = (if sci = "-" then None else Some (n_of_s sci)) } in
+    if not (mac_in_range h) then "noval | -" else
+    let tb = mac_to_bytes h in
+    let enc = match tb with Some b -> b | None -> [] in
+    let input = enc @ bytes_of_hex trail in
+    let d = mac_dec_fs input in
+    Printf.sprintf "v=%s tb=%s w=%s ws=- hl=%s d=%s eq=%s rd=%s | %s" (mac_canon h) (hexo tb)
+      (hexo (mac_write [] h)) (s_of_n (mac_header_len h)) d
+      (if d = "err" then "-" else if d = mac_canon h ^ "/" ^ ilen (bytes_of_hex trail) then "1" else "0")
+      (mac_dec_rd input) (hex_of_bytes (mac_spec h))
+  | _ -> failwith "macsec value args"
+let mac_bytes (bs : bytes) =
+  match mac_from_slice bs with
+  | Err _ -> Printf.sprintf "err rd=%s | -" (match mac_read bs with Ok _ -> "ok" | Err _ -> "err")
+  | Ok h ->
+    let used = int_of_n (mac_header_len h) in
+    let re = mac_to_bytes h in
+    let enc = match re with Some b -> b | None -> [] in
+    let rest = List.filteri (fun i _ -> i >= used) bs in
+    Printf.sprintf "ok used=%d v=%s re=%s w=%s ws=- hl=%s d2=%s rd=%s | %s" used (mac_canon h) (hexo re)
+      (hexo (mac_write [] h)) (s_of_n (mac_header_len h)) (mac_dec_fs (enc @ rest)) (mac_dec_rd bs)
+      (hex_of_bytes (mac_keep_mask (mac_header_len h)))
+
+(* generic value / byte cases for decoders returning (value, rest) *)
+let dec_pair (canon : 'a -> string) (f : bytes -> ('a * bytes) res) (bs : bytes) : string * 'a option =
+  match f bs with
+  | Ok (h, rest) -> (canon h ^ "/" ^ ilen rest, Some h)
+  | Err _ -> ("err", None)
+let gen_value canon (tb : bytes option) (w : bytes option) (hl : n) fs rd (eqf : 'a -> bool) (spec : bytes)
+    (vcanon : string) (trail : bytes) : string =
+  let enc = match tb with Some b -> b | None -> [] in
+  let input = enc @ trail in
+  let (d, dh) = dec_pair canon fs input in
+  let (r, _) = dec_pair canon rd input in
+  let eq = match dh with Some x -> b01 (eqf x) | None -> "-" in
+  Printf.sprintf "v=%s tb=%s w=%s ws=- hl=%s d=%s eq=%s rd=%s | %s" vcanon (hexo tb) (hexo w) (s_of_n hl) d eq r
+    (hex_of_bytes spec)
+let gen_bytes canon fs rd (tbf : 'a -> bytes option) (wf : 'a -> bytes option) (hlf : 'a -> n)
+    (keep : 'a -> bytes) (bs : bytes) : string =
+  match fs bs with
+  | Err _ -> Printf.sprintf "err rd=%s | -" (match rd bs with Ok _ -> "ok" | Err _ -> "err")
+  | Ok (h, rest) ->
+    let used = List.length bs - List.length rest in
+    let re = tbf h in
+    let enc = match re with Some b -> b | None -> [] in
+    let (d2, _) = dec_pair canon fs (enc @ rest) in
+    let (r, _) = dec_pair canon rd bs in
+    Printf.sprintf "ok used=%d v=%s re=%s w=%s ws=- hl=%s d2=%s rd=%s | %s" used (canon h) (hexo re) (hexo (wf h))
+      (s_of_n (hlf h)) d2 r (hex_of_bytes (keep h))
+
+(* IpAuthHeader: canon = next_header,spi,sequence_number,raw_icv hex *)
+let ah_canon (h : ipAuthHeader) : string =
+  Printf.sprintf "%s,%s,%s,%s" (s_of_n h.ah_next_header) (s_of_n h.ah_spi) (s_of_n h.ah_sequence_number)
+    (hexo (ah_raw_icv h))
+let ah_value args =
+  match args with
+  | [nh; spi; sq; icv; stale; trail] ->
+    (* new(.., stale) then set_raw_icv(icv): bytes of `stale` stay behind the ICV *)
+    let first = if stale = "-" then bytes_of_hex icv else bytes_of_hex stale in
+    let h0 = ah_new (n_of_s nh) (n_of_s spi) (n_of_s sq) first in
+    let h1 = match h0 with
+      | None -> None
+      | Some h -> if stale = "-" then Some h else ah_set_raw_icv h (bytes_of_hex icv) in
+    (match h1 with
+     | None -> "noval | -"
+     | Some h ->
+       if not (wf_ah h) then "noval | -" else
+       gen_value ah_canon (ah_to_bytes h) (ah_write [] h) (ah_header_len h) ah_from_slice ah_read
+         (fun x -> ah_eqb x h)
+         (ah_layout h.ah_next_header h.ah_spi h.ah_sequence_number
+            (match ah_raw_icv h with Some x -> x | None -> []))
+         (ah_canon h) (bytes_of_hex trail))
+  | _ -> failwith "auth value args"
+let ah_bytes = gen_bytes ah_canon ah_from_slice ah_read ah_to_bytes (ah_write []) ah_header_len
+    (fun h -> ah_keep_mask (ah_header_len h))
+
+(* Ipv6RawExtHeader: canon = next_header,payload hex *)
+let rx_canon (h : ipv6RawExtHeader) : string =
+  Printf.sprintf "%s,%s" (s_of_n h.rx_next_header) (hexo (rx_payload h))
+let rx_value args =
+  match args with
+  | [nh; pl; stale; trail] ->
+    let first = if stale = "-" then bytes_of_hex pl else bytes_of_hex stale in
+    let h0 = rx_new_raw (n_of_s nh) first in
+    let h1 = match h0 with
+      | None -> None
+      | Some h -> if stale = "-" then Some h else rx_set_payload h (bytes_of_hex pl) in
+    (match h1 with
+     | None -> "noval | -"
+     | Some h ->
+       if not (wf_rx h) then "noval | -" else
+       gen_value rx_canon (rx_to_bytes h) (rx_write [] h) (rx_header_len h) rx_from_slice rx_read
+         (fun x -> rx_eqb x h)
+         (rawext_layout h.rx_next_header (match rx_payload h with Some x -> x | None -> []))
+         (rx_canon h) (bytes_of_hex trail))
+  | _ -> failwith "rawext value args"
+let rx_bytes = gen_bytes rx_canon rx_from_slice rx_read rx_to_bytes (rx_write []) rx_header_len
+    (fun h -> ones (rx_header_len h))
+
+(* Ipv6Header: canon = traffic_class,flow_label,payload_length,next_header,hop_limit,src hex,dst hex *)
+let ip6_canon (h : ipv6Header) : string =
+  Printf.sprintf "%s,%s,%s,%s,%s,%s,%s" (s_of_n h.i6_traffic_class) (s_of_n h.i6_flow_label)
+    (s_of_n h.i6_payload_length) (s_of_n h.i6_next_header) (s_of_n h.i6_hop_limit)
+    (hex_of_bytes h.i6_source) (hex_of_bytes h.i6_destination)
+let ip6_value args =
+  match args with
+  | [tc; fl; pl; nh; hop; src; dst; trail] ->
+    let h = { i6_traffic_class = n_of_s tc; i6_flow_label = n_of_s fl; i6_payload_length = n_of_s pl;
+              i6_next_header = n_of_s nh; i6_hop_limit = n_of_s hop; i6_source = bytes_of_hex src;
+              i6_destination = bytes_of_hex dst } in
+    if not (wf_ip6 h) then "noval | -" else
+    gen_value ip6_canon (Some (ip6_to_bytes h)) (Some (ip6_write [] h)) (ip6_header_len h) ip6_from_slice ip6_read
+      (fun x -> x = h)
+      (ipv6_layout h.i6_traffic_class h.i6_flow_label h.i6_payload_length h.i6_next_header h.i6_hop_limit
+         h.i6_source h.i6_destination)
+      (ip6_canon h) (bytes_of_hex trail)
+  | _ -> failwith "ipv6 value args"
+let ip6_bytes = gen_bytes ip6_canon ip6_from_slice ip6_read (fun h -> Some (ip6_to_bytes h))
+    (fun h -> Some (ip6_write [] h)) ip6_header_len (fun h -> ones (ip6_header_len h))
+
+let run_linknet (line : string) : string option =
+  match Conv.split_ws line with
+  | "v" :: "macsec" :: args -> Some (mac_value args)
+  | ["b"; "macsec"; h] -> Some (mac_bytes (bytes_of_hex h))
+  | "v" :: "auth" :: args -> Some (ah_value args)
+  | ["b"; "auth"; h] -> Some (ah_bytes (bytes_of_hex h))
+  | "v" :: "rawext" :: args -> Some (rx_value args)
+  | ["b"; "rawext"; h] -> Some (rx_bytes (bytes_of_hex h))
+  | "v" :: "ipv6" :: args -> Some (ip6_value args)
+  | ["b"; "ipv6"; h] -> Some (ip6_bytes (bytes_of_hex h))
+  | _ -> None
+(* ---- end extend-c08a ---- *)
+
+(* ---- transport/control types (extend-c08b): ocaml/run_c08_transport.ml.in ---- *)
+(*INCLUDE run_c08_transport.ml.in*)
+
 let run (line : string) : string =
+  match run_linknet line with Some r -> r | None ->   (* extend-c08a hook *)
+  match run_transport line with Some r -> r | None -> (* extend-c08b hook *)
   match Conv.split_ws line with
   | "v" :: "tcp" :: args -> tcp_value args
   | ["b"; "tcp"; h] -> tcp_bytes (bytes_of_hex h)
